@@ -108,10 +108,13 @@ def check_normalize(case):
         zero_chunk=prev is not None and A.has_zero_chunk(prev),
         # a zero-length dimension together with an 'auto' dimension
         empty_dim=bool(autos) and 0 in shape,
+        # an 'auto' dimension of positive length at least half of whose previous chunks have size 0 (median below 1)
+        prev_median_lt_1=prev is not None and any(shape[i] > 0 and float(np.median(prev[i])) < 1 for i in autos),
     )
-    with impl("normalize_chunks", **sig), time_limit(10, "normalize_chunks", **sig):
+    call = f"normalize_chunks({live_spec(spec, nd)!r}, {shape}, limit={limit!r}, dtype={dtype}, previous_chunks={prev_t})"
+    with impl(call, raised=True, **sig), time_limit(10, call, **sig):
         got = normalize_chunks(live_spec(spec, nd), shape, limit=limit, dtype=dtype, previous_chunks=prev_t)
-    what = f"normalize_chunks({live_spec(spec, nd)!r}, {shape}, limit={limit!r}, dtype={dtype}, previous_chunks={prev_t}) -> {got!r}"
+    what = f"{call} -> {got!r}"
     ensure(isinstance(got, tuple) and len(got) == nd and all(isinstance(c, tuple) for c in got), what + ": not a tuple of tuples", "bad-structure", **sig)
     for d in range(nd):
         ensure(all(isinstance(c, int) and not isinstance(c, bool) for c in got[d]), what + f": non-int size on dim {d}", "non-int-chunk", **sig)
@@ -332,6 +335,9 @@ def check_rechunk(case):
         # normalize_chunks' own defects are the normalize sub-checks' business; the rechunk
         # sub-checks need a well-defined requested chunking
         raise Reject(f"target not normalizable: {e}")
+    # balance=True on a dimension whose requested chunks have a median size below 1: a zero-length dimension, or at least
+    # half of the (explicit) chunks of zero size
+    sig["balance_median_zero"] = balance and any(float(np.median(c)) < 1 for c in want)
     kw = {}
     if case.get("threshold") is not None:
         kw["threshold"] = case["threshold"]
@@ -341,6 +347,7 @@ def check_rechunk(case):
         kw["balance"] = True
     if method is not None:
         kw["method"] = method
+    what = f"rechunk({arr['chunks']} -> {live!r}, {kw})"
     if method == "p2p":
         # distributed is not installed: a clean exception is fine, a wrong result is not
         try:
@@ -354,10 +361,9 @@ def check_rechunk(case):
             return
         count("p2p_returned_result")
     else:
-        with impl("rechunk", **sig), time_limit(30, "rechunk", **sig):
+        with impl(what, raised=True, **sig), time_limit(30, what, **sig):
             r = d.rechunk(live, **kw)
             got = A.compute(r)
-    what = f"rechunk({arr['chunks']} -> {live!r}, {kw})"
     C.check_chunks_valid(r, what, sig)
     if not balance:
         ensure(r.chunks == want, f"{what}: chunks {r.chunks} != requested {want}", "chunks-not-as-requested", **sig)
@@ -509,9 +515,10 @@ def check_plan(case):
     new = C.tt(case["new"])
     shape = tuple(sum(c) for c in old)
     sig = dict(op="plan_rechunk", zero_chunk=A.has_zero_chunk(case["old"]) or A.has_zero_chunk(case["new"]))
-    with impl("plan_rechunk", **sig), time_limit(20, "plan_rechunk", **sig):
+    call = f"plan_rechunk({old} -> {new}, itemsize={case['itemsize']}, threshold={case.get('threshold')}, block_size_limit={case.get('bsl')})"
+    with impl(call, raised=True, **sig), time_limit(20, call, **sig):
         steps = plan_rechunk(old, new, case["itemsize"], case.get("threshold"), case.get("bsl"))
-    what = f"plan_rechunk({old} -> {new}, itemsize={case['itemsize']}, threshold={case.get('threshold')}, block_size_limit={case.get('bsl')}) = {steps}"
+    what = f"{call} = {steps}"
     ensure(len(steps) >= 1, what + ": empty plan", "empty-plan", **sig)
     ensure(tuple(map(tuple, steps[-1])) == new, what + ": last stage is not the target", "plan-does-not-end-at-target", **sig)
     for st_ in steps:
